@@ -14,6 +14,7 @@ EXTENDS CoreSpec, Json, IOUtils, TLCExt
 
 Rec == ndJsonDeserialize(IOEnv.TRACE)
 Hdr == Rec[1]
+TraceExtMon == "extmon" \in DOMAIN Hdr /\ Hdr.extmon
 TraceMeaning ==
   [tok \in DOMAIN Hdr.meaning |->
      IF "cas" \in DOMAIN Hdr.meaning[tok]
@@ -60,6 +61,7 @@ BatchesMatch(flat, batches) ==
        /\ {EvOf(flat[i]) : i \in 1..n} = Head(batches)
        /\ BatchesMatch(SubSeq(flat, n + 1, Len(flat)), Tail(batches))
 
+NotOf(c, f) == RestrictF(f, {id \in DOMAIN f : id[1] # c})
 EvMatch(jev, mev) ==
   /\ DOMAIN jev = {IdStr(id) : id \in DOMAIN mev}
   /\ \A id \in DOMAIN mev : BatchesMatch(jev[IdStr(id)], mev[id])
@@ -94,12 +96,17 @@ Consume ==
             /\ exp' = NoExp /\ act' = [op |-> "reset"]
        ELSE /\ Step(ReqOf(j))
             /\ Has(j, "rep")  => out'.rep = RepOf(j.rep)
-            /\ Has(j, "ev")   => EvMatch(j.ev, out'.ev)
-            /\ Has(j, "ls")   => LsMatch(j.ls, out'.ls)
+            \* what the core still sends to the subscriptions of a session while it ends that session
+            \* is seen by nobody (and depends on the order in which it drops them): not compared
+            /\ Has(j, "ev")   => EvMatch(j.ev, IF j.op = "disconnect" THEN NotOf(j.c, out'.ev) ELSE out'.ev)
+            /\ Has(j, "ls")   => LsMatch(j.ls, IF j.op = "disconnect" THEN NotOf(j.c, out'.ls) ELSE out'.ls)
             /\ Has(j, "lk")   => LkMatch(j.lk, out'.lk)
             /\ Has(j, "proj") => ProjMatch(j.proj, S')
   /\ used' = used \cup {FlagNames[i] : i \in {j \in 1..NFlags : TLCGet(j)}}
   /\ (l = Len(Rec)) => PrintT("DEV-USED " \o ToString(used'))
+  \* debugging aid (bin/dbgcore.py): what the specification does with the last record's request
+  /\ (l = Len(Rec) /\ "WBDBG" \in DOMAIN IOEnv) =>
+        PrintT("DBG " \o ToString(<<out', {<<q, S'.store[q].v, S'.store[q].n>> : q \in {x \in DOMAIN S'.store : S'.store[x].k # "none"}}, S'.len>>))
 
 TraceSpec == TraceInit /\ [][Consume]_tvars
 
